@@ -99,6 +99,21 @@ def case_stats(path):
     for c in vlib.iter_ndjson(path):
         key = "%s%d" % (c["fam"], c["n"])
         fam[key] = fam.get(key, 0) + 1
+        if c["k"] == "gmat":
+            # pivot-search patterns of the graded column (first column, physical row order): a tiny diagonal
+            # candidate, then either a LARGER TINY entry after the big one ("last exceeding the diagonal" would
+            # take it) or before the big one ("first exceeding" would take it)
+            if c["g"] == 1:
+                col = [(abs(c["m"][i][0]) * 2.0 ** c["e"][i][0], c["e"][i][0] != 0) for i in range(c["n"])]
+                if col[0][1]:
+                    big = next(i for i, v in enumerate(col) if not v[1])
+                    if any(v[1] and v[0] > col[0][0] for v in col[big + 1:]):
+                        sing["graded:last_exceeding"] = sing.get("graded:last_exceeding", 0) + 1
+                    if any(v[1] and v[0] > col[0][0] for v in col[1:big]):
+                        sing["graded:first_exceeding"] = sing.get("graded:first_exceeding", 0) + 1
+            else:
+                sing["graded:later_column"] = sing.get("graded:later_column", 0) + 1
+            continue
         sing[c["sing"]] = sing.get(c["sing"], 0) + 1
         ntri += c["tri"]
         nspd += c["spd"]
@@ -150,6 +165,38 @@ def record_and_validate(ctx, binary, nrec, seed, tag):
     return trace, events, ok, bad, why
 
 
+def reentrant(ctx, t):
+    """The equations of the property hold for every call, whatever else the process is doing: run the recorder
+    from 8 goroutines concurrently (every goroutine on its own random inputs, DenseFloat64 paths) with a -race
+    build.  A data-race report or a wrong result (trace rejected) is a violation what=not_reentrant."""
+    race = ctx.go_build("linalg", race=True)
+    trace = ctx.path("linsolve_trace-conc.ndjson")
+    per = t["record"] // 4
+    rc, _, err, _ = ctx.run([race, "record", trace, str(per), "8"], timeout=1200, ok_codes=(0, 66),
+                            env={"GORACE": "halt_on_error=0 exitcode=66"})
+    sig = {"engine": "linalg", "op": "record", "type": "f64", "opts": "concurrent", "what": "not_reentrant"}
+    nrace = (err or "").count("WARNING: DATA RACE")
+    if rc == 66 or nrace:
+        rep = (err or "")
+        i = rep.find("WARNING: DATA RACE")
+        ctx.violation(dict(sig, how="race_detector"), {"mode": "concurrent", "goroutines": 8, "calls_per_goroutine": per,
+                                                      "reports": nrace, "first_report": rep[i:i + 2500]})
+    events = [e for e in vlib.read_ndjson(trace) if "kind" not in e]
+    with open(trace, "w") as f:
+        for e in events:
+            f.write(json.dumps(e) + "\n")
+    if len(events) != 8 * per:
+        raise vlib.Infra("concurrent recorder wrote %d of %d events" % (len(events), 8 * per))
+    ok, bad, why = vlib.validate_trace(ctx, "LinSolveTrace", "LinSolveTrace.cfg", "linsolve_trace.ndjson", trace,
+                                       timeout=1800, label="trace-concurrent")
+    if not ok:
+        e = events[bad - 1] if bad and bad <= len(events) else None
+        ctx.violation(dict(sig, how="wrong_result"), {"mode": "concurrent", "goroutines": 8, "rejected_at": bad, "reason": why, "event": e})
+    else:
+        ctx.traces += len(events)
+    ctx.extra["reentrancy_probe"] = {"goroutines": 8, "calls": len(events), "race_reports": nrace, "trace_accepted": ok}
+
+
 def run(ctx):
     t = TIERS[ctx.tier]
     for m in ("LinSolve", "GaussJordanPerm", "LinSolveTrace"):
@@ -163,11 +210,12 @@ def run(ctx):
     fam, sing, masks4, ntri, nspd, nonprefix, sample = case_stats(cases)
     ctx.log("LinSolve: %d cases %s" % (res.json_count, json.dumps(fam, sort_keys=True)))
     # vacuity: the interesting classes really occur
-    need = ["g1", "g2", "g3", "pd3", "p44", "q44", "tr3", "tr4", "sym3", "sym4", "spd1", "spd2", "spd3", "spd4"]
+    need = ["g1", "g2", "g3", "pd3", "p44", "q44", "tr3", "tr4", "sym3", "sym4", "gr3", "gr4", "spd1", "spd2", "spd3", "spd4"]
     missing = [k for k in need if fam.get(k, 0) == 0]
     if missing or fam.get("p44") != 24 * 81 or fam.get("pd3") != 48 or fam.get("g2") != 625:
         raise vlib.Infra("vacuity: families missing or incomplete: %s %s" % (missing, fam))
-    for cls in ("none", "zero_row", "zero_col", "equal_rows", "other", "sub:zero_row", "sub:none"):
+    for cls in ("none", "zero_row", "zero_col", "equal_rows", "other", "sub:zero_row", "sub:none",
+                "graded:last_exceeding", "graded:first_exceeding", "graded:later_column"):
         if sing.get(cls, 0) == 0:
             raise vlib.Infra("vacuity: no case of singularity class " + cls)
     if len(masks4) != 14 or nonprefix == 0 or ntri == 0 or nspd == 0:
@@ -222,11 +270,16 @@ def run(ctx):
                     lambda x: x.update(err=False, panic=False, hasres=True, shape=True, finite=True), "singular")
         ctx.extra["binding_selftest"] = ("flipped residual rejected at event %d, determinant off by one rejected at event %d, "
                                         "finite result on structurally singular input rejected at event %d" % (a, b, c))
+    # 6. re-entrancy probe: the recorded direction from 8 goroutines at once on independent inputs, race detector on
+    reentrant(ctx, t)
     ctx.extra["replay"] = {"cases": total["cases"] + total2["cases"], "checks": total["checks"] + total2["checks"],
                            "families": fam, "singularity_classes": sing, "outcomes_on_singular": total["counts"]}
     ctx.extra["bounds"] = {"tier_constants": t, "element_types": ["Float64", "Float32", "Real64", "Real32"],
                            "entries": "n<=2: -2..2; n=3: {-1,0,1,2}; n=4: permutation x {1,2,-1} diagonal (+ dense perturbation), "
                                       "triangular, SPD from integer L",
+                           "graded": "A = B0 + E, B0 integer, E = mant * 2^-(40+3t) in one column, all row orders (gr3 all, gr4 slice); "
+                                     "oracle Inv(B0) + slack 2||B0^-1||^2||E|| (perturbation lemma, hypothesis delta <= 2^-20 checked by TLC) "
+                                     "and the residuals |A X - I|, |A x - b|",
                            "rhs": "e_k, (1,..,1), (1,2,..,n)", "masks": "all for n<=3, all 14 across cases for n=4",
                            "tolerance": "|x - p/q| <= 1e-9 (1+|p/q|) kappa (64 bit), 1e-4 (32 bit); buffers: 16 u kappa",
                            "record": {"events": len(events), "n": "5..8", "entries": "-3..3 (+ dominant pivots)"}}
@@ -272,13 +325,18 @@ MANIFEST = {
                  "checked by TLC and bound to the code through its terminal states; recorded calls validated by a trace spec",
     "text": "TLC enumerates all integer matrices with entries -2..2 up to 2x2, all (thorough) or a seeded slice (quick) of the "
             "262144 3x3 matrices over {-1,0,1,2}, every 4x4 permutation x {1,2,-1}-diagonal matrix with and without a dense "
-            "perturbation (every pivot order), triangular, symmetric indefinite and SPD families, verifies A adj(A) = det(A) I and Cramer's rule on "
+            "perturbation (every pivot order), triangular, symmetric indefinite and SPD families, and a graded family (one column "
+            "holding entries of size 2^-40..2^-46 next to one ordinary entry, in every row order, printed as mantissa and exponent; "
+            "expected inverse = exact inverse of the ungraded matrix up to a slack justified by a perturbation bound whose "
+            "hypothesis TLC checks, plus the residual equations), verifies A adj(A) = det(A) I and Cramer's rule on "
             "each, and prints determinant, inverse, solutions, condition proxy and singularity class as exact rationals. The "
             "driver runs matrixInverse (default, PositiveDefinite, UpperTriangular, every Submatrix mask, fresh/dirty/re-used "
             "InSitu buffers), gaussJordan (generic and DenseFloat64 variants, masks, triangular, right-hand sides e_k, ones, "
             "ramp), backSubstitution and determinant (+ PositiveDefinite, LogScale) on Float64/Float32/Real64/Real32 and "
             "compares with |x - p/q| <= 1e-9 (1+|p/q|) kappa; structurally singular input must give error, panic or non-finite "
             "output; buffer options must not change results. Bounded model checking plus conformance, not a proof for larger n.",
+    "level_note": "The re-entrancy probe (8 goroutines, -race build) and the residual booleans of the recorded direction and of the "
+                  "graded family are computed by the Go driver (projection); everything else is compared with values printed by TLC.",
     "note": "Trusted: TLC, CommunityModules Json, Rat.tla, the Go driver's comparison code, Go's math.Log for the log-determinant "
             "term. The PositiveDefinite + non-prefix Submatrix combination is a known finding with a deviation model (devinv).",
     "design_ref": "DESIGN.md section 5 (C04), section 4 (LinSolve, GaussJordanPerm), appendix A.8",
